@@ -19,6 +19,7 @@ The loop-order and call-variable parts of C02 (`for:` lists, matrices, variables
 the callee) live in the `Vars` domain: this file is completed by `Props/C02Vars.lean`.
 -/
 namespace Props.C02
+open TaskModel.Sched.S2
 open TaskModel.Sched
 
 /-- **C02 (sequencing).** In every run, for every activation (= one execution of a task):
